@@ -92,6 +92,16 @@ func genC18(c *Ctx) {
 		}
 		runs = append(runs, "collect all nofault")
 		c.Case(true, "ASYNC "+strings.Join(runs, " || "))
+		// an early stop directly followed by a complete materialisation, many times over (whatever the first one left
+		// running meets the second one)
+		for _, stop := range []string{"collect take:1 nofault nw", "collect take:2 nofault nw", "user all err@2 nw", "collect all cancel@3 nw"} {
+			runs = []string{p}
+			for i := 0; i < 12; i++ {
+				runs = append(runs, stop, "collect all nofault nw")
+			}
+			runs = append(runs, "collect all nofault")
+			c.Case(true, "ASYNC "+strings.Join(runs, " || "))
+		}
 	}
 	for pi, p := range pipes {
 		nCalls := callsOf(p + " || collect all nofault")
